@@ -1,6 +1,9 @@
 SPECIFICATION TraceSpec
 CONSTANTS Configs = {}
   CountBasedCheck = FALSE
+  SkipEpochWithoutRow = FALSE
+  LoadEveryEngine = FALSE
+  LoadOnlyOwnTargets = FALSE
 INVARIANT Accept
 INVARIANT ImportFaithful
 INVARIANT NoStaleState
